@@ -664,6 +664,8 @@ def binop(I, op, l, r, inplace):
         if deep_sym(r):
             return format_sym(l, r)
         return l % r
+    if op is ast.Div and isinstance(l, SInt) and not isinstance(r, (SInt, SBool)):
+        return l.__truediv__(r)
     if op is ast.Div and (isinstance(l, (SInt, SBool)) or isinstance(r, (SInt, SBool))):
         raise Unsupported('true division with symbolic operand')
     if isinstance(l, float) and isinstance(r, (SInt, SBool)) or isinstance(r, float) and isinstance(l, (SInt, SBool)):
